@@ -20,7 +20,7 @@ import (
 type c34Spec struct {
 	Hist  int `json:"hist"`  // history index
 	Crash int `json:"crash"` // crash prefix of the history's device log (level-1 state)
-	Plant int `json:"plant"` // 0 none; 1 empty WAL; 2 header-only WAL; 3 already REPLAYED WAL; 4 unparsable WAL
+	Plant int `json:"plant"` // 0 none; 1 empty WAL; 2 header-only WAL; 3 already REPLAYED WAL; 4 unparsable WAL; 5 power loss: the un-checkpointed primary data writes never reached the disk
 }
 
 var c34Hists = []struct {
@@ -32,6 +32,7 @@ var c34Hists = []struct {
 	{"two buckets in one request", []string{"wM"}},
 	{"write, checkpoint+rotation, write", []string{"wF", "ckpt", "wG"}},
 	{"write A, write B, destroy A, write B", []string{"wF", "wG", "destroyF", "wG2"}},
+	{"two variable writes (two transactions)", []string{"wV", "wVb"}},
 }
 
 type c34Run struct {
@@ -56,7 +57,9 @@ func c34History(h int) *c34Run {
 		}
 		vrt.Quiesce()
 		n := int32(0)
+		reqNo := 0
 		wr := func(key string, variable bool, ts ...time.Time) {
+			reqNo++
 			tags := make([]int32, len(ts))
 			for i := range tags {
 				n++
@@ -72,7 +75,7 @@ func c34History(h int) *c34Run {
 				panic("c34 history write: " + err.Error())
 			}
 			for i, t := range tags {
-				d.Mark("acked", fmt.Sprintf("%s %d %d", key, ts[i].Unix(), t))
+				d.Mark("acked", fmt.Sprintf("%s %d %d %d", key, ts[i].Unix(), t, reqNo))
 			}
 			vrt.Quiesce()
 		}
@@ -86,6 +89,8 @@ func c34History(h int) *c34Run {
 				wr(kG, false, t0.Add(2*time.Hour))
 			case "wV":
 				wr(kV, true, t0.Add(10*time.Minute), t0.Add(20*time.Minute))
+			case "wVb":
+				wr(kV, true, t0.Add(3*time.Hour+5*time.Minute))
 			case "wM":
 				csm := io.NewColumnSeriesMap()
 				csm.AddColumnSeries(*world.Key(kF), csFixed([]time.Time{t0}, []string{"V"}, []any{[]int32{201}}))
@@ -140,6 +145,7 @@ func c34Enum(c *mc.Ctx, yield func(c34Spec)) {
 			yield(c34Spec{h, len(r.log), p})
 			yield(c34Spec{h, len(r.log) / 2, p})
 		}
+		yield(c34Spec{h, len(r.log), 5})
 	}
 }
 
@@ -147,6 +153,7 @@ type c34Row struct {
 	key   string
 	epoch int64
 	tag   int32
+	req   int // write request that carried the row (0 = unknown: decoded from a WAL)
 }
 
 // decodeTGRows independently decodes the rows a serialized transaction group writes.
@@ -189,10 +196,10 @@ func decodeTGRows(body []byte) (rows []c34Row, ok bool) {
 		fmt.Sscanf(parts[3], "%d.bin", &year)
 		epoch := time.Date(year, 1, 1, 0, 0, 0, 0, time.UTC).Add(time.Duration(index-1) * time.Hour).Unix()
 		if rt == 0 {
-			rows = append(rows, c34Row{key, epoch, int32(binary.LittleEndian.Uint32(data))})
+			rows = append(rows, c34Row{key, epoch, int32(binary.LittleEndian.Uint32(data)), 0})
 		} else if vrl > 0 {
 			for o := 0; o+vrl <= len(data); o += vrl {
-				rows = append(rows, c34Row{key, epoch, int32(binary.LittleEndian.Uint32(data[o:]))})
+				rows = append(rows, c34Row{key, epoch, int32(binary.LittleEndian.Uint32(data[o:])), 0})
 			}
 		}
 	}
@@ -210,7 +217,13 @@ func c34Required(img *vos.FS, log []vos.Op, k int) (req []c34Row, destroyed map[
 		switch op.Path {
 		case "acked":
 			var r c34Row
-			fmt.Sscan(op.Path2, &r.key, &r.epoch, &r.tag)
+			fmt.Sscan(op.Path2, &r.key, &r.epoch, &r.tag, &r.req)
+			rr := r
+			rr.req = 0
+			if seen[rr] {
+				continue
+			}
+			seen[rr] = true
 			if !seen[r] {
 				seen[r] = true
 				req = append(req, r)
@@ -341,8 +354,25 @@ func c34RunCase(c *mc.Ctx, s c34Spec) {
 	for i := 0; i < s.Crash; i++ {
 		img1.Apply(&hr.log[i])
 	}
-	plantName := []string{"", "empty", "header-only", "already-replayed", "unparsable"}[s.Plant]
-	if s.Plant > 0 {
+	plantName := []string{"", "empty", "header-only", "already-replayed", "unparsable", ""}[s.Plant]
+	if s.Plant == 5 {
+		// power loss: the data-area writes to primary files after the last global sync never reached the disk (the WAL did)
+		lastSync := -1
+		for i := 0; i < s.Crash; i++ {
+			if hr.log[i].Kind == vos.OpSyncAll {
+				lastSync = i
+			}
+		}
+		img1 = hr.base.Clone()
+		for i := 0; i < s.Crash; i++ {
+			op := &hr.log[i]
+			if op.Kind == vos.OpWrite && strings.HasSuffix(op.Path, ".bin") && op.Off >= 37024 && i > lastSync {
+				continue
+			}
+			img1.Apply(op)
+		}
+	}
+	if s.Plant > 0 && s.Plant < 5 {
 		d := vos.FromFS(img1)
 		d.SetLogging(false)
 		var content []byte
@@ -366,8 +396,11 @@ func c34RunCase(c *mc.Ctx, s c34Spec) {
 	req, _ := c34Required(img1, hr.log, s.Crash)
 	histName := c34Hists[s.Hist].name
 	where1 := fmt.Sprintf("history %q crashed after device op %d/%d", histName, s.Crash, len(hr.log))
-	if s.Plant > 0 {
+	if s.Plant > 0 && s.Plant < 5 {
 		where1 += ", planted " + plantName + " WAL"
+	}
+	if s.Plant == 5 {
+		where1 += ", power loss: un-checkpointed primary data writes lost"
 	}
 	seen := map[uint64]bool{}
 	judge := func(img *vos.FS, where, phase string) {
@@ -405,6 +438,28 @@ func c34RunCase(c *mc.Ctx, s c34Spec) {
 				c.Violate("committed-row-lost|"+cause, fmt.Sprintf("%s [%s]: acknowledged/committed row %d of %s is not visible after a complete startup (buckets: %s)", where, phase, r.tag, r.key, fmtState(st.tables)))
 				c.Outcome("row-lost")
 				return
+			}
+		}
+		// "replayed once": on the power-loss lineage every record has to be replayed exactly once; an interrupted
+		// recovery may at most repeat the transaction it was in the middle of
+		if s.Plant == 5 {
+			cnt := map[int32]int{}
+			for _, t := range st.tables[kV].recs {
+				cnt[t]++
+			}
+			dupReq := map[int]bool{}
+			for _, r := range req {
+				if r.key == kV && r.req > 0 && cnt[r.tag] > 1 {
+					dupReq[r.req] = true
+				}
+			}
+			if len(dupReq) > 0 {
+				n := "1"
+				if len(dupReq) > 1 {
+					n = ">=2"
+				}
+				c.Violate("replayed-twice|variable|requests="+n, fmt.Sprintf("%s [%s]: after the closing startup the records of %d write request(s) are stored more than once (%s)", where, phase, len(dupReq), fmtState(st.tables)))
+				c.Outcome("replayed-twice")
 			}
 		}
 		// own WAL untouched; no foreign walfile left
